@@ -313,8 +313,8 @@ class CrackShapeDependent(WeibullFailureModel):
         # Total stress
         sigma = self.calculate_total_stress(mandel_stress)
 
-        # Shear stress
-        return np.sqrt(sigma**2 - sigma_n**2)
+        # Shear stress (the radicand is zero up to round off on planes without shear)
+        return np.sqrt(np.maximum(sigma**2 - sigma_n**2, 0.0))
 
     def calculate_flattened_eq_stress(
         self,
